@@ -14,7 +14,18 @@ def _install():
     sm = colang2.sm
     orig = sm.run_to_completion
 
+    mode = os.environ.get("VERIF_C11_MODE", "")
+    if mode == "age":
+        clock = colang2.install_fake_clock()
+    if mode == "json":
+        from nemoguardrails.colang.v2_x.runtime.serialization import json_to_state, state_to_json
+
     def wrapped(state, external_event):
+        if mode == "json":
+            # a JSON round trip before every event (cut only at the API boundary)
+            state = json_to_state(state_to_json(state))
+        if mode == "age":
+            clock.offset += 10.0    # more than the clean-up age elapses before every event
         st = orig(state, external_event)
         try:
             ev = external_event if isinstance(external_event, dict) else {"type": getattr(external_event, "name", "?"),
@@ -30,7 +41,10 @@ def _install():
 
     sm.run_to_completion = wrapped
     import nemoguardrails.colang.v2_x.runtime.runtime as rt
-    rt.run_to_completion = wrapped
+    if mode != "json":
+        # inside process_events the State object is mutated in place and the return value ignored:
+        # swapping in a restored copy there would be a harness artefact
+        rt.run_to_completion = wrapped
     for name, mod in list(sys.modules.items()):
         if name.startswith("tests.") and getattr(mod, "run_to_completion", None) is orig:
             mod.run_to_completion = wrapped
@@ -44,6 +58,8 @@ def pytest_collection_finish(session):
     orig, wrapped = _install()
     # test modules did `from ...statemachine import run_to_completion`: patch those names too
     for name, mod in list(sys.modules.items()):
+        if os.environ.get("VERIF_C11_MODE") == "json" and name.endswith("runtime.runtime"):
+            continue  # never swap the State object inside process_events (it is mutated in place there)
         if getattr(mod, "run_to_completion", None) is orig:
             try:
                 mod.run_to_completion = wrapped
